@@ -1114,7 +1114,7 @@ def correspond(ctx, res):
         if ctx.tier != "quick":
             # 5 processes: every ppid assignment (6^5) × every start-time order with at most two levels
             # (all equal, or any split into older/younger: 31), one caller per table (rotating), the two
-            # calls whose result depends on depth
+            # calls whose result depends on depth, rotating as well
             P5 = [2, 3, 5, 8, 13]
             wo2 = [w for w in weak_orders(5) if max(w) <= 1]
             cnt = 0
@@ -1122,11 +1122,11 @@ def correspond(ctx, res):
                 for st in wo2:
                     rows = [[P5[i], pp[i], st[i]] for i in range(5)]
                     pid = P5[cnt % 5]
+                    call = ("children_rec", "parents")[(cnt // 5) % 2]
                     cnt += 1
-                    for call in ("children_rec", "parents"):
-                        cases.append(mk_case(call, pid, rows, family="exhaustive"))
-                        tags.append("exhaustive")
-            ex_desc.append("%d tables of 5 processes (start orders with ≤2 levels, rotating caller, children(recursive=True) and parents())" % cnt)
+                    cases.append(mk_case(call, pid, rows, family="exhaustive"))
+                    tags.append("exhaustive")
+            ex_desc.append("%d tables of 5 processes (start orders with ≤2 levels; caller and call — children(recursive=True) / parents() — rotate over the tables)" % cnt)
         # ---- exhaustive: every 2-process table × every assignment of states {running, zombie, unreadable}
         cnt = 0
         for rows in exhaustive_tables(2, [2, 3]):
